@@ -2,6 +2,7 @@ package retrypolicy
 
 import (
 	"math/rand"
+	"sync"
 	"time"
 
 	"github.com/failsafe-go/failsafe-go"
@@ -17,7 +18,8 @@ type executor[R any] struct {
 	*policy.BaseExecutor[R]
 	*retryPolicy[R]
 
-	// Mutable state
+	// Mutable state, guarded by mtx since hedged attempts of one execution share the executor
+	mtx             sync.Mutex
 	failedAttempts  int
 	retriesExceeded bool
 	lastDelay       time.Duration // The last backoff delay time
@@ -34,7 +36,7 @@ func (e *executor[R]) Apply(innerFn func(failsafe.Execution[R]) *common.PolicyRe
 			if canceled, cancelResult := execInternal.IsCanceledWithResult(); canceled {
 				return cancelResult
 			}
-			if e.retriesExceeded {
+			if e.isRetriesExceeded() {
 				return result
 			}
 
@@ -82,19 +84,22 @@ func (e *executor[R]) Apply(innerFn func(failsafe.Execution[R]) *common.PolicyRe
 func (e *executor[R]) OnFailure(exec policy.ExecutionInternal[R], result *common.PolicyResult[R]) *common.PolicyResult[R] {
 	e.BaseExecutor.OnFailure(exec, result)
 
+	e.mtx.Lock()
 	e.failedAttempts++
 	maxRetriesExceeded := e.maxRetries != -1 && e.failedAttempts > e.maxRetries
 	maxDurationExceeded := e.maxDuration != 0 && exec.ElapsedTime() > e.maxDuration
-	e.retriesExceeded = maxRetriesExceeded || maxDurationExceeded
+	retriesExceeded := maxRetriesExceeded || maxDurationExceeded
+	e.retriesExceeded = retriesExceeded
+	e.mtx.Unlock()
 	isAbortable := e.IsAbortable(result.Result, result.Error)
-	shouldRetry := !isAbortable && !e.retriesExceeded && e.allowsRetries()
+	shouldRetry := !isAbortable && !retriesExceeded && e.allowsRetries()
 	done := isAbortable || !shouldRetry
 
 	// Call listeners
 	if isAbortable && e.onAbort != nil {
 		e.onAbort(failsafe.ExecutionEvent[R]{ExecutionAttempt: exec.CopyWithResult(result)})
 	}
-	if e.retriesExceeded {
+	if retriesExceeded {
 		if !isAbortable && e.onRetriesExceeded != nil {
 			e.onRetriesExceeded(failsafe.ExecutionEvent[R]{ExecutionAttempt: exec.CopyWithResult(result)})
 		}
@@ -106,6 +111,12 @@ func (e *executor[R]) OnFailure(exec policy.ExecutionInternal[R], result *common
 		}
 	}
 	return result.WithDone(done, false)
+}
+
+func (e *executor[R]) isRetriesExceeded() bool {
+	e.mtx.Lock()
+	defer e.mtx.Unlock()
+	return e.retriesExceeded
 }
 
 // getDelay updates lastDelay and returns the new delay
@@ -125,6 +136,8 @@ func (e *executor[R]) getDelay(exec failsafe.ExecutionAttempt[R]) time.Duration 
 
 func (e *executor[R]) getFixedOrRandomDelay(exec failsafe.ExecutionAttempt[R]) time.Duration {
 	if e.Delay != 0 {
+		e.mtx.Lock()
+		defer e.mtx.Unlock()
 		// Adjust for backoffs
 		if e.lastDelay != 0 && exec.Retries() >= 1 && e.maxDelay != 0 {
 			backoffDelay := time.Duration(float32(e.lastDelay) * e.delayFactor)
